@@ -38,7 +38,9 @@ static size_t unhex(const char* s, uint8_t** out)
     while (*s == ' ') { s++; }
     size_t len = (*s == '-') ? 0 : strlen(s);
     size_t n = len / 2;
-    uint8_t* b = (uint8_t*) malloc(n);   /* exact size, malloc(0) for the empty string */
+    /* exactly n accessible bytes; for n == 0 a pointer one past a 1-byte allocation: ANY access is reported */
+    uint8_t* base = (uint8_t*) malloc(n ? n : 1);
+    uint8_t* b = n ? base : base + 1;
     for (size_t i = 0; i < n; i++) { unsigned v = 0; sscanf(s + 2 * i, "%2x", &v); b[i] = (uint8_t) v; }
     *out = b;
     return n;
@@ -75,7 +77,7 @@ static size_t unhex(const char* s, uint8_t** out)
             if (guard) { printf("guard:object-bytes-outside-members-modified rc=%d count=%zu\n", rc, o->xs.count); }  \
             else if (rc < 0) { printf("%s\n", err_name(rc)); }                                                        \
             else { printf("ok %zu %zu\n", o->xs.count, sz); }                                                         \
-            free(mask); free(o); free(in);                                                                            \
+            free(mask); free(o); free(n ? in : in - 1);                                                               \
             return 1;                                                                                                 \
         }                                                                                                             \
         if (!strcmp(op, "ser"))                                                                                       \
@@ -86,12 +88,13 @@ static size_t unhex(const char* s, uint8_t** out)
             o->a = 0x0A; o->b = 0x0B;                                                                                 \
             for (size_t i = 0; i < sl; i++) { o->xs.elements[i] = (uint8_t) (0x11 * (i + 1)); }                       \
             o->xs.count = count;                                                                                      \
-            uint8_t* buf = (uint8_t*) malloc(cap);                                                                    \
+            uint8_t* bufbase = (uint8_t*) malloc(cap ? cap : 1);                                                      \
+            uint8_t* buf = cap ? bufbase : bufbase + 1;                                                               \
             size_t size = cap;                                                                                        \
             const int rc = T##_serialize_(o, buf, &size);                                                             \
             if (rc < 0) { printf("%s\n", err_name(rc)); }                                                             \
             else { printf("ok "); for (size_t i = 0; i < size; i++) { printf("%02x", buf[i]); } printf("%s\n", size ? "" : "-"); } \
-            free(buf); free(o);                                                                                       \
+            free(bufbase); free(o);                                                                                   \
             return 1;                                                                                                 \
         }                                                                                                             \
         return 0;                                                                                                     \
